@@ -31,14 +31,37 @@ theorem C01_post : ∀ w ∈ workflows, w.isCircuit = true → semOK w.final = t
 
 example : (workflows.filter (·.isCircuit)).length ≥ 250 := by decide +kernel
 
-/-- No modelled pass of any regenerated circuit workflow can raise where it is reachable (restore
+/-- No modelled pass of any regenerated circuit workflow can raise where it is reachable — restore
 without extract, a single-qudit rule on a wider block, a layer / template generator or a
-deterministic rule that fails on a dummy block of the configuration's model). -/
+deterministic rule that fails on a dummy block of the configuration's model, and every leaf that
+calls `Circuit.instantiate` (QSearch, LEAP, ScanningGateRemoval, AutoRebase, the permutation-aware
+wrappers) RUN by the translator on dummy blocks with its own cost generator and instantiate
+options (a cost generator / minimizer mismatch or a gate set no instantiater accepts is a raise)
+— for every model whose own gates some instantiater accepts.  The remaining models are the
+finding `C01_noinstantiater_witness`. -/
 theorem C01_no_modelled_pass_raises :
-    ∀ w ∈ workflows, w.isCircuit = true → w.final.crash = false := by
-  intro w hw _
+    ∀ w ∈ workflows, w.isCircuit = true → w.cfg.m.anyCapable = true → w.final.crash = false := by
+  intro w hw hc ha
   have := allCheck_noRaise (workflows_ok w hw)
-  simpa [noRaise] using this
+  have hs : w.raiseScope = true := by
+    have h1 : w.isStateLike = false := by
+      simp only [WF.isCircuit, beq_iff_eq] at hc
+      simp [WF.isStateLike, hc]
+    simp [WF.raiseScope, WF.noInstantiater, WF.stateForcedMinimization, WF.pasOnState,
+      WF.oneQuditStateSearch, h1, ha]
+  simpa [noRaise, hs] using this
+
+example : (workflows.filter (fun w => w.isCircuit && w.cfg.m.anyCapable)).length ≥ 250 := by
+  decide +kernel
+
+/-- Finding (not fixed): for the model `{CZ, VariableUnitaryGate(1)}` no instantiater accepts a
+circuit of the model's own gates (Minimization refuses VariableUnitaryGates, QFactor refuses CZ):
+AutoRebase2QuditGatePass raises as soon as a two-qudit gate has to be rebased — the REAL pass,
+run by the translator on a two-qubit block holding one foreign gate, raised.  A one-qudit circuit
+at level 1 never reaches a numeric pass. -/
+theorem C01_noinstantiater_witness :
+    witCzVaruCircuit.cfg.m.anyCapable = false ∧ witCzVaruCircuit.final.crash = true := by
+  decide +kernel
 
 /-- The hypothesis `numOK` is really used: at level 3 (resynthesis) the meaning is kept only if
 the search-based synthesis leaves reach their threshold — they return their best circuit even
